@@ -712,6 +712,10 @@ impl World {
         }
         canister::take_request_log();
         let after = observe();
+        if !self.is_active("C09") {
+            // other profiles only need the model to follow; C09's own oracles are not theirs
+            return Ok(());
+        }
         if after.resp != RespKind::None || after.is_fetching {
             return Err(violation(
                 "C09",
@@ -719,7 +723,8 @@ impl World {
                 "after an upgrade a response or the fetch lock is still held".into(),
             ));
         }
-        if after.hashes != before.hashes || after.stable_height != before.stable_height || after.ingesting != before.ingesting {
+        let set = |o: &Observed| -> BTreeSet<Hash32> { o.hashes.iter().copied().collect() };
+        if set(&after) != set(&before) || after.hashes.first() != before.hashes.first() || after.stable_height != before.stable_height || after.ingesting != before.ingesting {
             return Err(violation(
                 "C09",
                 "sync-state-changed-by-upgrade",
